@@ -17,6 +17,8 @@ func main() {
 		cmdCheck(os.Args[2:])
 	case "selftest":
 		cmdSelftest(os.Args[2:])
+	case "inventory":
+		cmdInventory(os.Args[2:])
 	case "mutate":
 		cmdMutate(os.Args[2:])
 	default:
